@@ -492,12 +492,8 @@ def _exit_explained(w: Dict[str, Any]) -> Optional[set]:
     run = w.get("run") or {}
     obs, exp = w.get("observed") or {}, w.get("expected") or {}
     need = set()
-    lost = sum(c["nerr"] for c in run.get("cfg", []) if c.get("shape") == "dup3")
-    if "NothingLost" in failed:
-        if lost > 0 and obs.get("problem_lines") == exp.get("planted", -1) - lost:
-            need.add("dup3")
-        else:
-            return None
+    if "NothingLost" in failed:          # (the duplicate-definition deviation is repaired, b533082: nothing excuses a lost problem)
+        return None
     mis = w.get("misnamed") or []
     if "NamesTheFile" in failed:
         if any(c.get("shape") == "reexpv" for c in run.get("cfg", [])) and len(mis) == 1 and mis[0].endswith(os.path.join("pkg", "__init__.py")):
@@ -509,27 +505,11 @@ def _exit_explained(w: Dict[str, Any]) -> Optional[set]:
     return need or None
 
 
-def kf_dup_both_bad(w: Dict[str, Any]) -> bool:
-    """Python twin of ExitStatus.tla LostToStaleName: a class defined twice, both definitions with markup errors: the errors of
-    the second are never printed (its name is already in parse_errors); whatever else is wrong is the other known deviation."""
-    need = _exit_explained(w)
-    return need is not None and "dup3" in need
-
-
 def kf_var_in_package(w: Dict[str, Any]) -> bool:
     """Python twin of ExitStatus.tla NamesTheFileOrKF: the link problem of a re-exported field-documented module variable names
     the package's __init__.py; whatever else is wrong is the other known deviation."""
     need = _exit_explained(w)
     return need is not None and "reexpv" in need
-
-
-def kf_inline_origin(w: Dict[str, Any]) -> bool:
-    """Python twin of Lines.tla KF_InlineOrigin: an attribute documented by an ivar field that also has a docstring of its own:
-    the field's problems are located from the line of that (ignored) string instead of the line of the field."""
-    lay, exp = w.get("layout") or {}, w.get("expected") or {}
-    got = sorted(w.get("observed", {}).get("lines") or [])
-    return (w.get("invariant") == "ObsAcceptable" and bool(lay.get("inl")) and len(got) == 2
-            and sorted([exp.get("impl"), exp.get("impl2")]) == got and exp.get("impl", 0) > exp.get("also", 0) > 0)
 
 
 def kf_cons_bad(w: Dict[str, Any]) -> bool:
@@ -567,7 +547,7 @@ CONSTANTS Source = "{source}"
   Seps = {{"none", "ls", "nel"}}
   RstLineNotConverted = {"TRUE" if os.environ.get("VERIF_C16_MODEL") == "prefix" else "FALSE"}
   LeadingWsKept = {"TRUE" if os.environ.get("VERIF_C16_LEADWS") == "prefix" else "FALSE"}
-  InlineMovesOrigin = {"FALSE" if os.environ.get("VERIF_C16_INLINE") == "fixed" else "TRUE"}
+  InlineMovesOrigin = FALSE
 CONSTRAINT Emit
 {inv}"""
 
@@ -581,7 +561,7 @@ CONSTANTS Source = "{source}"
   Objs = {objs}
   RichObjs = {rich}
   Interleave = {"TRUE" if interleave else "FALSE"}
-  StaleNameKept = {"FALSE" if os.environ.get("VERIF_C16_STALENAME") == "fixed" else "TRUE"}
+  StaleNameKept = FALSE
   VarSourceIsNewParent = {"FALSE" if os.environ.get("VERIF_C16_VARSOURCE") == "fixed" else "TRUE"}
 {tail}{inv}"""
 
@@ -594,8 +574,6 @@ def run(ctx: Ctx) -> int:
     ctx.register_matcher("napoleon-line-beyond-docstring", kf_napoleon_beyond)
     ctx.register_matcher("docutils-extra-line-boundaries", kf_docutils_sep)
     ctx.register_matcher("type-field-offset-added-twice", kf_type_twice)
-    ctx.register_matcher("duplicate-definition-errors-swallowed", kf_dup_both_bad)
-    ctx.register_matcher("ivar-inline-docstring-line", kf_inline_origin)
     ctx.register_matcher("consolidated-field-error-line", kf_cons_bad)
     ctx.register_matcher("reexported-variable-reported-in-package", kf_var_in_package)
     nproc = max(2, min(NCPU, 16))
